@@ -7,14 +7,24 @@
     holding all their bytes), and every structure, primitive and byte-buffer event is covered by exactly one row,
     in event order, as is every warning (a warning raised inside a list before the row of that list is printed is
     shown right after that row); the parent of a non-byte list has a row exactly when the list is empty.
-    NOT YET PROVED: that decoder output always has the shape on which the printer does not fail (the elements of a
-    byte buffer are primitive events); decided by the oracle (the real printer on decoder output of every generated
-    input: no exception, rows parsed from the real output: one row per structure/primitive/warning event in order,
-    one row per byte buffer, bit rows, indentation, value text) and the correspondence Model/Pretty.v vs
-    implementation.
+    PROVED as well: the printer never fails on decoder output - for the events of ANY decode (every root: structure
+    types, commands, responses, streams; every input, well-formed or not; strict or warn mode; whatever the outcome)
+    no row is the failure row, so the theorems above apply to every event stream the decoder can produce.
+    ([Proofs/PrintSafe1-6.v]: the printer's control state as a three-state machine over (kind, path) tokens; a
+    compositional judgement "from any state that holds no byte buffer a later event could be mistaken for an element
+    of, the machine runs through these events and ends holding at most a buffer that lies inside their scope", scopes
+    being sets of paths (a field of a structure, the elements of a list from index i on); a path-indexed induction
+    over the layout descriptors for every outcome of every decoder function - sibling fields have different names,
+    elements different indices, the parent of a byte buffer is followed by its primitive elements only - then
+    commands, responses, the stream loop (the root event of the next message closes a buffer left open) and the
+    byte pump (its output is a prefix of the trace, possibly followed by one warning).)
+    The tie to /repo: the row oracle (the real printer on decoder output of every generated input: no exception, rows
+    parsed from the real output: one row per structure/primitive/warning event in order, one row per byte buffer, bit
+    rows, indentation, value text) and the correspondence Model/Pretty.v vs implementation.
     Statement file: theorem statements, [exact], Print Assumptions only. *)
 From Coq Require Import ZArith List String Bool.
-From TV Require Import Layout.Types Model.Monad Model.Ints Model.Pretty Proofs.PrettyProofs.
+From TV Require Import Layout.Types gen.Tables Model.Monad Model.Ints Model.Message Model.Pump Model.Pretty Proofs.PrettyProofs
+  Proofs.PrintSafe4 Proofs.PrintSafe5 Proofs.PrintSafe6.
 Import ListNotations.
 
 Theorem C14_hex_column_is_the_decoded_bytes :
@@ -61,3 +71,29 @@ Theorem C14_empty_list_is_shown :
     pretty T d (PList pa en false :: e :: r) = plain_row T d (PList pa en false) :: full_rows T d e ++ pretty T d r.
 Proof. exact empty_list_is_shown. Qed.
 Print Assumptions C14_empty_list_is_shown.
+
+(** the printer never fails on decoder output: any root passing the table condition, any input, either mode *)
+Theorem C14_printer_never_fails_on_decoder_output :
+  forall T ps d abort r bs, msg_pok T ps = true -> root_pok ps r ->
+    ~ In RCrashRow (pretty T d (map (fun e => to_pev ps (fst e)) (fst (decode T abort r bs)))).
+Proof. exact printer_never_fails_on_decoder_output. Qed.
+Print Assumptions C14_printer_never_fails_on_decoder_output.
+
+(** the table condition holds of the regenerated tables: the elements of every list[BYTE] are primitives the printers
+    know, attribute names are distinct within a class *)
+Theorem C14_tables_checks :
+  msg_pok Tables.T Tables.all_prims && forallb (fun nt => pok_ty Tables.all_prims (snd nt)) (types Tables.T) = true.
+Proof. vm_compute. reflexivity. Qed.
+Print Assumptions C14_tables_checks.
+
+(** so for the regenerated tables every clause above holds of every decode: e.g. the hex column *)
+Theorem C14_hex_column_of_any_decode :
+  forall d abort r bs, root_pok Tables.all_prims r ->
+    let evs := map (fun e => to_pev Tables.all_prims (fst e)) (fst (decode Tables.T abort r bs)) in
+    List.concat (map row_hex (pretty Tables.T d evs)) = List.concat (map pev_bytes evs).
+Proof.
+  intros d abort r bs Hr evs.
+  assert (Hok : msg_pok Tables.T Tables.all_prims = true) by (vm_compute; reflexivity).
+  exact (hex_column_is_all_bytes Tables.T d evs Top I (printer_never_fails_on_decoder_output Tables.T Tables.all_prims d abort r bs Hok Hr)).
+Qed.
+Print Assumptions C14_hex_column_of_any_decode.
